@@ -150,6 +150,18 @@ D = {
  'C10-signalonly-load-then-store': ('C10', 'SignalOnly::load: load, early return, then store(false) instead of one compare_exchange', 'two batches of one instance walked by two threads: both see true, one delivery yielded twice'),
  'C11-tokio-drained-flag-skips-read': ('C11', 'tokio poll_next: after one successful 1-byte read further questions of the same poll are answered false without a read', 'a stale wake-up byte: Pending comes back with no waker registered, close() never ends the parked stream'),
  'C11-global-waking-flag': ('C11', 'pipe::wake skips the write while a process-wide WAKING flag is set by any other wake in progress', 'close() of one instance coinciding with a delivery / wake for another pipe: the close byte is never written, the blocked consumer stays blocked'),
+ 'C15-exit-raw-syscall-thread-only': ('C15', 'low_level::exit calls the raw SYS_exit system call before _exit (ends the calling thread only)', 'at least one other live thread at delivery time: the process lives on, later actions never run'),
+ 'C15-handler-nodefer': ('C15', 'Slot::new installs the handler with SA_RESTART | SA_NODEFER', 'the second signal arriving DURING the first delivery, between the shutdown action and the arming flag: delivered nested, both consumed, the process survives'),
+ 'C17-sigchld-namespace-hoisted': ('C17', 'extract.c picks a table namespace once (SIGCHLD or generic): generic rows unreachable for SIGCHLD', 'a SIGCHLD sent by kill / raise / sigqueue: Unknown, no process'),
+ 'C17-withorigin-fills-process-for-nonpositive': ('C17', 'WithOrigin::load fills in pid/uid from the union whenever si_code <= 0 and none was extracted', 'a POSIX timer (SI_TIMER): timer id and overrun reported as pid and uid; the exfiltrator and by-hand routes disagree'),
+ 'C01-add-signal-three-locks': ('C01', 'Handle::add_signal takes the ids lock separately for the check, the registration and the store', 'two overlapping add_signal of one signal on one instance, then dropping it: one action survives its owners'),
+ 'C01-wakefd-closes-on-epipe': ('C01', 'WakeFd::wake closes its descriptor inside the handler when the write fails with EPIPE; Drop closes it again', 'the reader dropped while the action is registered, a delivery, then unregister (double close of a reused number)'),
+ 'C14-set-flags-ignores-sigpipe': ('C14', 'WakeFd::set_flags sets SIGPIPE to SIG_IGN (before the signal number is checked)', 'a refused register_raw with a non-socket descriptor and SIGPIPE not ignored before: a disposition changed by a refused call'),
+ 'C14-drop-skips-on-poisoned-ids': ('C14', 'DeliveryState::drop unregisters only if the ids mutex is not poisoned', 'an accepted signal, then a refusal that panics (forbidden / out of range), then the drop: action and descriptor stay'),
+ 'C03-setfd-cloexec-instead-of-nonblock': ('C03', 'WakeFd::set_flags uses F_GETFD/F_SETFD: O_NONBLOCK is never set on non-socket descriptors', 'a full pipe and one more delivery: the handler sleeps in write(2)'),
+ 'C03-dequeue-emptiness-check-hoisted': ('C03', 'Channel dequeue tests emptiness once before the CAS loop', 'one free slot left and two overlapping deliveries on two threads: dequeue returns slot 0, send panics inside the handler'),
+ 'C12-raw-init-swap-frees-installed': ('C12', 'WithRawSiginfo::init swaps the new channel in and frees it when the slot was occupied', 'the same number rejected twice after init ran (0, 32, 33, 65..127, forbidden): use after free, double free on drop'),
+ 'C12-unregister-snapshot-outside-lock': ('C12', 'unregister clones the registry through a read guard and locks only for the store', 'the drop of one instance overlapping new / add_signal / drop on another thread: a registration wiped or resurrected'),
 }
 for name, (prop, change, needs) in D.items():
     d = os.path.join(ROOT, 'seeded', name)
